@@ -223,6 +223,7 @@ func runC13(c *Ctx) {
 	checkKeyArgNames(c, "pk")
 	checkSetterValues(c, "pk", nil)
 	checkIterDelete(c, 6, "pk")
+	checkCollectors(c, "pk", "GetAllChannelToConsumers", "GetAllCommissionRateValidators", "GetAllConsumerAddrsToPrune", "GetAllConsumerIds", "GetAllConsumerRewardDenoms", "GetAllConsumersWithIBCClients", "GetAllOptedIn", "GetAllValidatorConsumerPubKeys", "GetAllValidatorsByConsumerAddr", "GetAllValsetUpdateBlockHeights", "GetAllowList")
 
 	// ---- R4 ------------------------------------------------------------------------------------
 	c.Rule("R4", "failure isolation: the launch loop and the removal loop run each consumer on its own CacheContext created inside the loop body, committed only on success (details in C19.R1)", 4)
@@ -520,6 +521,25 @@ func checkCachedLoop(c *Ctx, fnSpec, opSpec string) {
 	c.Check(ok, fk(f, "cached-context"), op, "the per-consumer operation receives ctx.CacheContext() of the outer context; found "+describe(arg(op, 0)))
 	if ok {
 		c.Check(inLoop(cc) && inLoop(op), fk(f, "cache-per-iteration"), cc, "a fresh cache is created in every iteration of the per-consumer loop (so one consumer's discarded writes never travel with another's commit)")
+		// the commit is an immediate call inside the iteration: a deferred or stored commit makes all
+		// operations of the block run against the pre-block state and see none of each other's writes
+		if w := extractOf(cc, 1); w != nil {
+			direct, other := 0, ""
+			for _, r := range *w.Referrers() {
+				switch x := r.(type) {
+				case *ssa.Call:
+					if x.Call.Value == w && inLoop(x) {
+						direct++
+					} else {
+						other = "passed on at " + c.P.InstrPos(x)
+					}
+				case *ssa.DebugRef:
+				default:
+					other = fmt.Sprintf("%T at %s", r, c.P.InstrPos(r))
+				}
+			}
+			c.Check(direct >= 1 && other == "", fk(f, "commit-within-iteration"), cc, "the cache's write function is only ever called directly, inside the loop body"+map[bool]string{true: "", false: "; found " + other}[other == ""])
+		}
 	}
 }
 
